@@ -163,6 +163,23 @@ Definition loaded_ok (x : alf_in) (shanks nan : list Z) : option bool :=
       end
   end.
 
+(* get_closest_channels sorts the distances with np.argsort (not stable): when the 12th and 13th closest channels of a
+   template's peak channel are equally far, WHICH of them is kept is NumPy-undetermined (C08's Corr judges that
+   relationally); clause 28 compares with the stable determinisation, so such data sets are not judged by it *)
+Definition cut_tie (x : alf_in) : bool :=
+  let px := map (fun p => nth 0 p 0) (x_pos x) in
+  let py := map (fun p => nth 1 p 0) (x_pos x) in
+  existsb (fun b =>
+     let x0 := nth b px 0 in let y0 := nth b py 0 in
+     let dd := map2 (fun a c => (a - x0) * (a - x0) + (c - y0) * (c - y0)) px py in
+     let idx := PV.Base.NpSort.stable_argsort dd in
+     match nth_error idx 11, nth_error idx 12 with
+     | Some i, Some j => nth i dd 0 =? nth j dd 0
+     | _, _ => false
+     end) (peak_channels (length (x_wmi x)) (x_tdata x)).
+Definition loaded_ok_det (x : alf_in) (shanks nan : list Z) : option bool :=
+  if cut_tie x then None else loaded_ok x shanks nan.
+
 Definition check_alf (big : option Z) (x : alf_in) (factor rate : tok) (orig : option (list (list Z))) (nan : list Z)
                      (shanks : option (list Z)) (o : alf_obs) : list Z :=
       if negb (regime x factor rate) then [3] else
@@ -185,7 +202,7 @@ Definition check_alf (big : option Z) (x : alf_in) (factor rate : tok) (orig : o
           let g1 := zl_eq (y_rawind y) (o_rawind o) && zl_eq (model_nan_idx (x_ncl x) (x_st x) (x_sc x)) nan in
           let g28 := match shanks with
                      | None => true
-                     | Some sh => match loaded_ok x sh nan with Some b => b | None => true end
+                     | Some sh => match loaded_ok_det x sh nan with Some b => b | None => true end
                      end in
           flag 1 (g1 && g21 && g23 && g24 && g25 && g26 && g28) ++
           flag 21 g21 ++ flag 22 g22 ++ flag 23 g23 ++ flag 24 g24 ++ flag 25 g25 ++ flag 26 g26 ++ flag 27 g27 ++
